@@ -45,7 +45,10 @@ def run_check(dst, cid, tier, seed='0'):
     e['HXMON_NO_EVIDENCE'] = '1'
     r = subprocess.run([os.path.join(HERE, 'check'), cid, '--tier', tier], cwd=HERE, env=e, capture_output=True, text=True)
     keys = [l.strip() for l in r.stdout.splitlines() if l.strip().startswith('key=')]
-    return r.returncode, keys, r.stdout
+    rc = r.returncode
+    if rc == 1 and 'VIOLATION property=' not in r.stdout:
+        rc = 3      # crashed, not a verdict
+    return rc, keys, r.stdout + r.stderr[-400:]
 
 
 def apply_replacement(dst, d):
